@@ -403,7 +403,7 @@ def results(prog, ctx):
                 break
             sx.exec(s, [st])
         entry, cond, live, done, n0 = sx.loop_step(loops[0], st)
-        accs = [(k, v) for k, v in entry.items() if isinstance(v, Symbol) and not str(v).startswith('i@') and len(live) == 1
+        accs = [(k, v) for k, v in entry.items() if isinstance(v, Symbol) and k != sx.counter_key(loops[0], st) and len(live) == 1
                 and isinstance(live[0].env.get(k), sp.Basic) and (live[0].env.get(k) - v).atoms(sp.core.function.AppliedUndef)]
         if len(live) == 1 and len(accs) == 1:
             kk, vin = accs[0]
@@ -444,13 +444,20 @@ def results(prog, ctx):
         vs = [a for a in v.atoms(sp.core.function.AppliedUndef) if a.func.__name__ == L + 'MC_Volume']
         if len(vs) == 1:
             rest = sp.cancel(v / vs[0])
-            okm = isinstance(rest, Symbol) and str(rest).startswith('average')
-            # the average variable is the one passed to Miser as `ave`
+            okm = isinstance(rest, Symbol)
+            # the average variable is the one Miser writes its mean into (its first `double&` out-parameter); the region handed
+            # to Miser is the one whose volume multiplies it and the sample budget is this function's own parameter
             ms = [c for c in calls(im) if (c.get('callee') or {}).get('q') == L + 'Miser']
-            if len(ms) == 1:
+            okm = okm and len(ms) == 1
+            if okm:
                 callee = prog.by_sig(ms[0]['callee']['sig'])
-                names = {p['name']: show(strip_casts(a)) for p, a in zip(callee.params, ms[0]['args'])}
-                okm = okm and names.get('ave') == 'average' and names.get('region') == 'region' and names.get('npts') == 'ncall'
+                outs_d = [i_ for i_, p_ in enumerate(callee.params) if p_.get('byref') and not p_.get('constref') and p_['ty'].replace(' ', '') == 'double']
+                regs = [i_ for i_, p_ in enumerate(callee.params) if 'std::vector<double' in p_['ty'] and 'function' not in p_['ty']]
+                cnts = [i_ for i_, p_ in enumerate(callee.params) if not p_.get('byref') and p_['ty'].replace('const', '').replace(' ', '') in ('unsignedlong', 'unsignedint', 'int', 'long')]
+                a_ = ms[0]['args']
+                volarg = [show(strip_casts(c['args'][0])) for c in calls(im) if (c.get('callee') or {}).get('q') == L + 'MC_Volume']
+                okm = bool(outs_d) and bool(regs) and bool(cnts) and str(rest).split('@')[0].split('#')[0] == show(strip_casts(a_[outs_d[0]])) \
+                    and volarg[:1] == [show(strip_casts(a_[regs[0]]))] and strip_casts(a_[cnts[0]]).get('rk') == 'param'
     ctx.decide('C14.e', 'Miser:estimate', im, okm, 'returns MC_Volume(region)*average with average the mean computed by Miser over the same region',
                'Miser estimate is %s' % v)
 
